@@ -314,13 +314,13 @@ def check_zone(verdict, st, o, r, rng, qyears, idx, tier):
         iw = impl_w[k]
         if iw != m_w[k]:
             st.model_diff += 1
-            tw = P.impl_obs_wall(zs, w, f) if zs is not None and w >= last_first_wall + P.DAY else None
+            tw = P.impl_obs_wall(zs, w, f) if zs is not None and w >= first_wall else None
             verdict.violation({"kind": "correspondence: tzical zone differs from the model (wall reading)",
                                "input": dict(base, wall=w, fold=f, wall_iso=P.dt_of(w).isoformat()), "impl": iw,
                                "model": m_w[k], "tzstr_impl": tw},
                               concrete=bool(tw is not None and tw != iw))
-        elif zs is not None and w >= last_first_wall + P.DAY:
-            # gaps and folds handled like tzstr does
+        elif zs is not None and w >= first_wall:
+            # gaps and folds handled like tzstr does, from the zone's first onset on (wall readings)
             tw = P.impl_obs_wall(zs, w, f)
             st.evals += 1
             if tw != iw:
